@@ -138,6 +138,16 @@ func (p *c07) build(seed uint64, tier string) []C07Scenario {
 								sc.Label += "|sibling"
 							}
 							out = append(out, sc)
+							if pol != "implicit" && pol != "none" && b.label == "cert-wrongname" && idx%2 == 1 {
+								// the caller's own tls.Config names no server, and the client introduces
+								// itself (HELO) with the very name the presented certificate is valid for
+								nn := sc
+								nn.Client.Sibling = ""
+								nn.Client.TLSConfigNoName = true
+								nn.Client.HELO = "other.sim.example"
+								nn.Label = strings.TrimSuffix(nn.Label, "|sibling") + "|tlsconfig-without-name"
+								out = append(out, nn)
+							}
 							if pol == "implicit" && b.label == "tls-ok" && (auth == "AUTODISCOVER" || auth == "PLAIN" || auth == "LOGIN" || strings.HasPrefix(auth, "CUSTOM")) {
 								pd := sc
 								pd.PlainDial = true
